@@ -12,12 +12,13 @@ RULE = ("random removal-enabled graphs of both classes (reciprocal directed pair
         "form, plus (EX) every window 0<=a<=b<=7 on the graphs of a small universe. For H=G.time_slice(a,b) / "
         "dn.time_slice: type(H) is type(G); H audited with the full C01-C05 battery against the model P|[a,b] "
         "(nodes = endpoints of surviving interactions with G's attributes); snapshot(G) unchanged; "
-        "slice-of-slice vs slice by the intersection; b<a raises ValueError. distinct = distinct (model state, "
+        "slice-of-slice vs slice by the intersection; later add_interaction calls on the slice leave the source "
+        "unchanged and vice versa; b<a raises ValueError. distinct = distinct (model state, "
         "window).")
 MIN = {"quick": {"slice:has_interaction(u,v,t)": 50000, "slice:type": 3000, "slice:G-unchanged": 3000,
-                 "slice2:": 3000, "slice:invalid-window": 300},
+                 "slice2:": 3000, "slice:invalid-window": 300, "slice:independent": 1000},
        "thorough": {"slice:has_interaction(u,v,t)": 1000000, "slice:type": 60000, "slice:G-unchanged": 60000,
-                    "slice2:": 60000, "slice:invalid-window": 6000}}
+                    "slice2:": 60000, "slice:invalid-window": 6000, "slice:independent": 20000}}
 ALLEN = ("before", "meets", "overlaps", "starts", "during", "finishes", "equals", "finished-by", "contains",
          "started-by", "overlapped-by", "met-by", "after")
 REQUIRED_CELLS = {t: tuple("allen:" + a for a in ALLEN) + ("class:DynGraph", "class:DynDiGraph", "form:dn.",
@@ -113,6 +114,22 @@ def check_slice(ctx, dn, G, m, a, b, form):
     return H, h
 
 
+def independent(ctx, dn, G, m, a, b):
+    """'in a new graph': timed updates of a slice never reach the source and vice versa"""
+    from .c16 import grow
+    H = G.time_slice(a, b)
+    sG = observe.snapshot(G)
+    grow(ctx, H)
+    ctx.expect("slice:independent", observe.diff(sG, observe.snapshot(G)), [], dict(window=(a, b), mutated="slice"))
+    H = G.time_slice(a, b)
+    sH = observe.snapshot(H)
+    G2, _, _ = driver.build_accepted(dn, ctx.case["program"], m.directed)
+    H2 = G2.time_slice(a, b)
+    grow(ctx, G2)
+    d = [k for k in observe.diff(observe.snapshot(H), observe.snapshot(H2))]
+    ctx.expect("slice:independent", d, [], dict(window=(a, b), mutated="source"))
+
+
 def one_graph(ctx, dn, G, m, windows):
     rng = ctx.rng
     ctx.cell("class:" + ("DynDiGraph" if m.directed else "DynGraph"))
@@ -140,6 +157,9 @@ def one_graph(ctx, dn, G, m, windows):
         ctx.expect("slice2:nodes", (len(H2.nodes()), dict(H2.nodes(data=True))), (len(h2.nodes), h2.nodes),
                    dict(window=(a, b), second=(c, d)))
         ctx.case.pop("second_window", None)
+    if windows:
+        w = windows[0]
+        guarded(ctx, "slice:independent", independent, ctx, dn, G, m, w[0], w[1] if w[1] is not None else w[0])
     # invalid window
     ids = m.ids()
     a = rng.choice(ids)
